@@ -70,6 +70,37 @@ where
         ok = ok && mk().skip(k).max() == v[k..].iter().cloned().max();
     }
     o.check(ok, &format!("{what}:provided-Iterator-methods-disagree-with-next"), || format!("next() yields {v:?}; count {} last {:?} size_hint {:?}", mk().count(), mk().last(), (lo, hi)));
+    // two live iterators over the same borrowed input, advanced in turns
+    // (a, b, b, a, a, a, b, ...): each has to yield what it yields alone, and
+    // its size_hint has to bound what is still to come at every step
+    if n <= 4096 {
+        let (mut a, mut b) = (mk(), mk());
+        let (mut va, mut vb): (Vec<T>, Vec<T>) = (Vec::new(), Vec::new());
+        let (mut da, mut db) = (false, false);
+        let mut hint_ok = true;
+        let mut turn = 0usize;
+        while !(da && db) && va.len() + vb.len() <= 2 * n + 8 {
+            let run = 1 + turn % 3;
+            for _ in 0..run {
+                let (it, out, done) = if turn % 2 == 0 { (&mut a, &mut va, &mut da) } else { (&mut b, &mut vb, &mut db) };
+                if *done {
+                    break;
+                }
+                let (l, h) = it.size_hint();
+                let left = n.saturating_sub(out.len());
+                hint_ok = hint_ok && l <= left && h.is_none_or(|h| left <= h);
+                match it.next() {
+                    Some(x) => out.push(x),
+                    None => *done = true,
+                }
+            }
+            turn += 1;
+        }
+        o.check(va == v && vb == v, &format!("{what}:two-live-iterators-advanced-in-turns-differ-from-one-alone"), || {
+            crate::ctx::clip(&format!("alone {v:?}; first {va:?}; second {vb:?}"))
+        });
+        o.check(hint_ok, &format!("{what}:size_hint-does-not-bound-the-remaining-items"), || crate::ctx::clip(&format!("sequence {v:?}")));
+    }
 }
 
 fn strictly_ascending<T: Ord>(xs: &[T]) -> bool {
